@@ -42,7 +42,7 @@ def run(rep, tier, seed, replay):
                         "requests are not in flight when Stop is called (sequential client)"]
     pr = vlib.prove(rep, PROP)
     vlib.prepare_runners()
-    res = differential(rep, PROP, "c20", seed, 150 if tier == "quick" else 6000, tier)
+    res = differential(rep, PROP, "c20", seed, 150 if tier == "quick" else 3000, tier)
     cases, impl, model = res["cases"], res["impl"], res["models"]["c20"]
     mm = vlib.diff_lines(impl, model)
     add_corr(rep, "Counters after observed histories: implementation vs model", res, mm, len({c for c in cases if " q:" in c and " x" in c}))
